@@ -35,7 +35,13 @@ def main():
     assert r.returncode == 0, r.stderr
     env = dict(os.environ, AEIC_PATH=str(WT / 'tests/data'), PYTHONPATH=str(WT / 'src'))
     env.pop('VERIF_REPO', None)
-    demo = src / 'demo.py'
+    env['AEIC_ROOT'] = str(WT)
+    # demos often hard-code the seeding agent's own worktree: run a copy that points at the evaluation worktree
+    import tempfile
+    dtmp = pathlib.Path(tempfile.mkdtemp(prefix='vf_demo_'))
+    shutil.copytree(src, dtmp / 'd')
+    demo = dtmp / 'd' / 'demo.py'
+    demo.write_text(demo.read_text().replace(f'/tmp/seed_{a.pid}_{a.tag}', str(WT)))
     is_pytest = 'def test_' in demo.read_text() and '__main__' not in demo.read_text()
     def run_demo():
         if is_pytest:
@@ -72,6 +78,7 @@ def main():
     meta['confirmed'] = bool(meta.get('applies') and meta['demo_without_change_exit'] == 0 and meta.get('demo_with_change_exit', 0) != 0
                              and meta.get('existing_tests', {}).get('exit', 0) == 0)
     meta['caught_by'] = [c for c, v in meta.get('checks', {}).items() if v['exit'] == 1]
+    shutil.rmtree(dtmp, ignore_errors=True)
     print(json.dumps(meta, indent=1))
     if meta['confirmed']:
         dst = ROOT / 'seeded' / f'{a.pid}-{a.tag}{a.k}'
